@@ -1089,9 +1089,20 @@ func (x *Exec) opSend(st *Step) {
 		x.St.inc("send-unauthorised")
 		x.St.inc("send-drop:" + x.dropReason(a, pa))
 	}
+	relayFails := st.RespLost && len(emits) == 1 && a.RelaySock != nil
+	if relayFails {
+		// the relay socket refuses this one datagram (a transient sendto error): it is lost,
+		// and nothing else changes - the allocation lives on, as the later steps check
+		a.RelaySock.FailWrites(1)
+		emits = nil
+		x.St.inc("send-relay-write-fails")
+	}
 	x.w.splitNext = st.Split
 	x.w.send(c, raw)
 	x.settle()
+	if relayFails {
+		a.RelaySock.FailWrites(0)
+	}
 	x.checkWire(x.observe(), nil, emits, nil, fmt.Sprintf("Send indication (%d bytes) from client %d to %v", len(payload), c.Idx, pa))
 }
 
